@@ -427,7 +427,8 @@ pub fn gen_plan(seed: u64, prof: &Profile) -> Plan {
         } else {
             (0, 0)
         };
-        Behaviour { awaits, outcome, logs: lg }
+        let eager = outcome.is_fault() && outcome != Outcome::Err && r.chance(1, 4);
+        Behaviour { awaits, outcome, logs: lg, eager }
     };
     let attempts = max_retries + 1;
     let mut total_attempts = 0usize;
